@@ -56,7 +56,9 @@ def generate(rng, index, cfg):
         "cli": rng.random() < 0.5,
         "big_notebooks": rng.random() < 0.3,
         # a git clean filter on notebooks: nbdime applies it to working-tree files before comparing
-        "clean_filter": rng.choice([None, None, None, None, "cat", "sed -e s/print/PRINT/g"]),
+        "clean_filter": rng.choice([None, None, None, None, "cat", "sed -e s/print/PRINT/g", "sed -e s/print/PRINT/g"]),
+        # how the attribute selecting the filter is written: by basename, or by patterns containing a slash
+        "filter_pattern": rng.choice(["basename", "per_dir", "per_dir"]),
     }
     dirs = swarm["dirs"]
     ops = []
@@ -707,7 +709,11 @@ class Runner:
         if self.clean_filter:
             w.git("config", "filter.nbclean.clean", self.clean_filter)
             with open(os.path.join(w.work, ".git", "info", "attributes"), "w") as f:
-                f.write("*.ipynb filter=nbclean\n")
+                if (self.trace.get("swarm") or {}).get("filter_pattern") == "per_dir":
+                    for d in DIRS:
+                        f.write("%s/*.ipynb filter=nbclean\n" % (d.replace(" ", "[[:space:]]") if d else ""))
+                else:
+                    f.write("*.ipynb filter=nbclean\n")
             self.stat("histories_with_clean_filter")
         for op in self.trace["ops"]:
             if op["op"] == "query":
